@@ -38,37 +38,65 @@ impl Target {
 pub struct Job {
     pub target: Target,
     pub q: Query,
+    /// which handle set (mapping) the job addresses: scenarios may share two independent sets
+    pub set: usize,
 }
 
 impl Job {
     fn to_json(&self) -> Value {
-        json!({"target": self.target.name(), "q": self.q.to_json()})
+        json!({"target": self.target.name(), "q": self.q.to_json(), "set": self.set})
     }
     fn from_json(v: &Value) -> Option<Job> {
-        Some(Job { target: Target::from_name(v.get("target")?.as_str()?)?, q: Query::from_json(v.get("q")?)? })
+        Some(Job { target: Target::from_name(v.get("target")?.as_str()?)?, q: Query::from_json(v.get("q")?)?, set: v.get("set").and_then(|x| x.as_u64()).unwrap_or(0) as usize })
     }
     fn describe(&self) -> String {
-        format!("{}.{}", self.target.name(), self.q.describe())
+        format!("set{}.{}.{}", self.set, self.target.name(), self.q.describe())
     }
 }
 
-/// The shared handles. Built once per run; every worker thread gets `&Shared`.
-pub struct Shared<'a> {
+/// One set of handles over one mapping.
+pub struct HandleSet<'a> {
     pub mapping: cur::ProguardMapping<'a>,
     pub cache: cur::ProguardCache<'a>,
     pub mapper: cur::ProguardMapper<'a>,
     pub mapper_p: cur::ProguardMapper<'a>,
 }
 
+/// The bytes the handles borrow from: mapping files and their (aligned) cache files.
+pub struct Inputs {
+    pub mappings: Vec<Vec<u8>>,
+    pub caches: Vec<AlignedBuf>,
+}
+
+impl Inputs {
+    pub fn new(mappings: &[Vec<u8>]) -> Option<Inputs> {
+        let mut caches = Vec::new();
+        for m in mappings {
+            caches.push(AlignedBuf::new(&guarded(|| cur::write_cache(m)).ok()?));
+        }
+        Some(Inputs { mappings: mappings.to_vec(), caches })
+    }
+}
+
+/// The shared handles (one or two independent sets). Built once per run; every worker thread
+/// gets `&Shared`.
+pub struct Shared<'a> {
+    pub sets: Vec<HandleSet<'a>>,
+}
+
 impl<'a> Shared<'a> {
-    pub fn build(mapping: &'a [u8], cache_bytes: &'a [u8]) -> Option<Shared<'a>> {
-        let m = cur::ProguardMapping::new(mapping);
-        Some(Shared {
-            cache: cur::ProguardCache::parse(cache_bytes).ok()?,
-            mapper: cur::ProguardMapper::new(m.clone()),
-            mapper_p: cur::ProguardMapper::new_with_param_mapping(m.clone(), true),
-            mapping: m,
-        })
+    pub fn build(inp: &'a Inputs) -> Option<Shared<'a>> {
+        let mut sets = Vec::new();
+        for (m, c) in inp.mappings.iter().zip(inp.caches.iter()) {
+            let m = cur::ProguardMapping::new(m);
+            sets.push(HandleSet {
+                cache: cur::ProguardCache::parse(c.as_slice()).ok()?,
+                mapper: cur::ProguardMapper::new(m.clone()),
+                mapper_p: cur::ProguardMapper::new_with_param_mapping(m.clone(), true),
+                mapping: m,
+            });
+        }
+        Some(Shared { sets })
     }
 }
 
@@ -84,6 +112,7 @@ impl<T> ForceShare<T> {
 }
 
 pub fn answer_job<'a>(sh: &'a Shared<'a>, job: &'a Job, step: &mut dyn FnMut()) -> String {
+    let sh = &sh.sets[job.set.min(sh.sets.len() - 1)];
     match job.target {
         Target::Cache => cur::answer_cache_stepped(&sh.cache, &job.q, &mut |_| {}, step),
         Target::Mapper => cur::answer_mapper_stepped(&sh.mapper, &job.q, step),
@@ -101,16 +130,13 @@ fn guarded_answer<'a>(sh: &'a Shared<'a>, job: &'a Job, step: &mut dyn FnMut()) 
 
 /// The reference: the query issued alone — on a fresh thread (pristine thread-locals) against
 /// freshly built handles.
-pub fn answer_alone(mapping: &[u8], cache_bytes: &[u8], job: &Job) -> String {
+pub fn answer_alone(inp: &Inputs, job: &Job) -> String {
     std::thread::scope(|s| {
         std::thread::Builder::new()
             .stack_size(256 * 1024)
-            .spawn_scoped(s, || {
-                let buf = AlignedBuf::new(cache_bytes);
-                match Shared::build(mapping, buf.as_slice()) {
-                    Some(sh) => guarded_answer(&sh, job, &mut || {}),
-                    None => "UNBUILDABLE".into(),
-                }
+            .spawn_scoped(s, || match Shared::build(inp) {
+                Some(sh) => guarded_answer(&sh, job, &mut || {}),
+                None => "UNBUILDABLE".into(),
             })
             .expect("spawn reference thread")
             .join()
@@ -121,6 +147,8 @@ pub fn answer_alone(mapping: &[u8], cache_bytes: &[u8], job: &Job) -> String {
 #[derive(Clone, Debug)]
 pub struct Scenario {
     pub mapping: Vec<u8>,
+    /// optional second, independent mapping with its own handle set (jobs with set == 1)
+    pub mapping2: Option<Vec<u8>>,
     pub batches: Vec<Vec<Job>>,
     pub policy: Policy,
     pub baton_seed: u64,
@@ -132,6 +160,7 @@ impl Scenario {
     pub fn to_json(&self) -> Value {
         json!({
             "mapping": bytes_to_json(&self.mapping),
+            "mapping2": self.mapping2.as_ref().map(|m| bytes_to_json(m)),
             "batches": self.batches.iter().map(|b| b.iter().map(|j| j.to_json()).collect::<Vec<_>>()).collect::<Vec<_>>(),
             "policy": match self.policy { Policy::Uniform => json!("uniform"), Policy::RunToCompletion => json!("run_to_completion"), Policy::Pct{depth} => json!({"pct": depth}) },
             "baton_seed": self.baton_seed.to_string(),
@@ -146,6 +175,7 @@ impl Scenario {
         };
         Some(Scenario {
             mapping: bytes_from_json(&v["mapping"])?,
+            mapping2: bytes_from_json(&v["mapping2"]),
             batches: v["batches"].as_array()?.iter().map(|b| b.as_array().map(|a| a.iter().filter_map(Job::from_json).collect()).unwrap_or_default()).collect(),
             policy,
             baton_seed: v["baton_seed"].as_str()?.parse().ok()?,
@@ -154,16 +184,70 @@ impl Scenario {
     }
 }
 
+/// Same byte length, but every member line's leading obfuscated start line becomes 0, i.e. the
+/// variant has no line info at all (changes has_line_info / frame answers, keeps summary counts).
+pub fn zero_lines_variant(m: &[u8]) -> Option<Vec<u8>> {
+    let mut out = m.to_vec();
+    let mut changed = false;
+    let mut i = 0;
+    while i < out.len() {
+        let line_start = i == 0 || out[i - 1] == b'\n' || out[i - 1] == b'\r';
+        if line_start && out[i..].starts_with(b"    ") {
+            let mut j = i + 4;
+            while j < out.len() && out[j].is_ascii_digit() {
+                if out[j] != b'0' {
+                    out[j] = b'0';
+                    changed = true;
+                }
+                j += 1;
+            }
+            i = j.max(i + 1);
+        } else {
+            i += 1;
+        }
+    }
+    changed.then_some(out)
+}
+
+/// A second mapping for the same scenario: an equal-length sibling of the first (renamed
+/// originals, or all line info stripped — what state keyed by length, by a truncated content hash or
+/// by buffer address would confuse), or an independent generated one (overlapping obfuscated names).
+fn second_mapping(rng: &mut Rng, first: &[u8]) -> Vec<u8> {
+    match rng.below(3) {
+        0 => {
+            if let Some(v) = crate::c14::same_length_variant(first) {
+                return v;
+            }
+        }
+        1 => {
+            if let Some(v) = zero_lines_variant(first) {
+                return v;
+            }
+        }
+        _ => {}
+    }
+    gen::gen_case(rng, 6, 8).1
+}
+
 pub fn build_scenario(rng: &mut Rng, mapping: Vec<u8>, max_threads: u64, jobs_per_thread: u64) -> Scenario {
-    let uni = universe(&mapping, rng, &UniCfg { lines_full: false, cap: 600, compound: true });
+    let mapping2 = if rng.chance(1, 3) { Some(second_mapping(rng, &mapping)) } else { None };
+    let unis: Vec<Vec<Query>> = std::iter::once(&mapping)
+        .chain(mapping2.iter())
+        .map(|m| universe(m, rng, &UniCfg { lines_full: false, cap: 600, compound: true }))
+        .collect();
     let n_threads = rng.range(2, max_threads.max(2)) as usize;
-    // a small "hot set" so that different threads hit the same and neighbouring entries
-    let hot: Vec<Query> = (0..rng.range(2, 12)).filter_map(|_| if uni.is_empty() { None } else { Some(rng.pick(&uni).clone()) }).collect();
+    // a small "hot set" per handle set so that different threads hit the same and neighbouring entries
+    let hots: Vec<Vec<Query>> = unis
+        .iter()
+        .map(|uni| (0..rng.range(2, 12)).filter_map(|_| if uni.is_empty() { None } else { Some(rng.pick(uni).clone()) }).collect())
+        .collect();
     let mut batches = Vec::new();
     for _ in 0..n_threads {
         let n = rng.range(1, jobs_per_thread.max(1));
         let mut b = Vec::new();
         for _ in 0..n {
+            let set = if unis.len() > 1 && rng.chance(1, 2) { 1 } else { 0 };
+            let (uni, hot) = (&unis[set], &hots[set]);
             let q = match rng.below(20) {
                 0 => Query::MapUuid,
                 1 => Query::MapSummary,
@@ -174,8 +258,8 @@ pub fn build_scenario(rng: &mut Rng, mapping: Vec<u8>, max_threads: u64, jobs_pe
                         Query::MapIsValid
                     }
                 }
-                3..=10 if !hot.is_empty() => rng.pick(&hot).clone(),
-                _ if !uni.is_empty() => rng.pick(&uni).clone(),
+                3..=10 if !hot.is_empty() => rng.pick(hot).clone(),
+                _ if !uni.is_empty() => rng.pick(uni).clone(),
                 _ => Query::Class("a".into()),
             };
             let target = match q {
@@ -187,7 +271,7 @@ pub fn build_scenario(rng: &mut Rng, mapping: Vec<u8>, max_threads: u64, jobs_pe
                     _ => Target::Cache,
                 },
             };
-            b.push(Job { target, q });
+            b.push(Job { target, q, set });
         }
         batches.push(b);
     }
@@ -196,7 +280,7 @@ pub fn build_scenario(rng: &mut Rng, mapping: Vec<u8>, max_threads: u64, jobs_pe
         1..=5 => Policy::Uniform,
         _ => Policy::Pct { depth: rng.range(1, 4) as u32 },
     };
-    Scenario { mapping, batches, policy, baton_seed: rng.next_u64(), nested_pct: *rng.pick(&[0u64, 0, 15, 40]) }
+    Scenario { mapping, mapping2, batches, policy, baton_seed: rng.next_u64(), nested_pct: *rng.pick(&[0u64, 0, 15, 40]) }
 }
 
 pub struct ScenarioResult {
@@ -210,20 +294,21 @@ pub struct ScenarioResult {
 
 /// Execute one scenario: reference answers, concurrent phase under the baton, post-phase.
 pub fn run_scenario(sc: &Scenario, use_baton: bool) -> ScenarioResult {
-    let cache_bytes = match guarded(|| cur::write_cache(&sc.mapping)) {
-        Ok(b) => b,
-        Err(_) => return ScenarioResult { violation: None, steps: 0, switches: 0, schedule_digest: 0, log: 0, jobs: 0 },
+    let all_mappings: Vec<Vec<u8>> = std::iter::once(sc.mapping.clone()).chain(sc.mapping2.iter().cloned()).collect();
+    let Some(inputs) = Inputs::new(&all_mappings) else {
+        return ScenarioResult { violation: None, steps: 0, switches: 0, schedule_digest: 0, log: 0, jobs: 0 };
     };
+    let inputs = &inputs;
     // reference: each job alone
     // Two reference passes over the distinct jobs, each on a fresh thread with freshly built
     // handles, one in forward and one in reverse order. If they disagree, an answer depends on the
     // queries issued before it (thread-local or instance state): that already contradicts
     // "returns exactly what it returns when issued alone". If they agree they are the reference.
     let mut distinct: Vec<&Job> = Vec::new();
-    let mut index: std::collections::HashMap<(Target, &Query), usize> = std::collections::HashMap::new();
+    let mut index: std::collections::HashMap<(usize, Target, &Query), usize> = std::collections::HashMap::new();
     for b in &sc.batches {
         for j in b {
-            index.entry((j.target, &j.q)).or_insert_with(|| {
+            index.entry((j.set, j.target, &j.q)).or_insert_with(|| {
                 distinct.push(j);
                 distinct.len() - 1
             });
@@ -231,17 +316,12 @@ pub fn run_scenario(sc: &Scenario, use_baton: bool) -> ScenarioResult {
     }
     let pass = |order: Vec<usize>| -> Vec<(usize, String)> {
         let distinct = &distinct;
-        let mapping = &sc.mapping;
-        let cache_bytes = &cache_bytes;
         std::thread::scope(|s| {
             std::thread::Builder::new()
                 .stack_size(512 * 1024)
-                .spawn_scoped(s, move || {
-                    let buf = AlignedBuf::new(cache_bytes);
-                    match Shared::build(mapping, buf.as_slice()) {
-                        Some(sh) => order.into_iter().map(|k| (k, guarded_answer(&sh, distinct[k], &mut || {}))).collect(),
-                        None => Vec::new(),
-                    }
+                .spawn_scoped(s, move || match Shared::build(inputs) {
+                    Some(sh) => order.into_iter().map(|k| (k, guarded_answer(&sh, distinct[k], &mut || {}))).collect(),
+                    None => Vec::new(),
                 })
                 .expect("spawn reference thread")
                 .join()
@@ -257,7 +337,7 @@ pub fn run_scenario(sc: &Scenario, use_baton: bool) -> ScenarioResult {
     for (k, a) in rev {
         if reference[k] != a {
             // pin down the truly-alone answer for the message
-            let alone = answer_alone(&sc.mapping, &cache_bytes, distinct[k]);
+            let alone = answer_alone(inputs, distinct[k]);
             return ScenarioResult {
                 violation: Some((
                     format!("answer-depends-on-query-history target={}", distinct[k].target.name()),
@@ -277,10 +357,9 @@ pub fn run_scenario(sc: &Scenario, use_baton: bool) -> ScenarioResult {
             };
         }
     }
-    let expected: Vec<Vec<String>> = sc.batches.iter().map(|b| b.iter().map(|j| reference[index[&(j.target, &j.q)]].clone()).collect()).collect();
+    let expected: Vec<Vec<String>> = sc.batches.iter().map(|b| b.iter().map(|j| reference[index[&(j.set, j.target, &j.q)]].clone()).collect()).collect();
 
-    let buf = AlignedBuf::new(&cache_bytes);
-    let Some(shared) = Shared::build(&sc.mapping, buf.as_slice()) else {
+    let Some(shared) = Shared::build(inputs) else {
         return ScenarioResult { violation: None, steps: 0, switches: 0, schedule_digest: 0, log: 0, jobs: 0 };
     };
     let shared = ForceShare(shared);
@@ -365,10 +444,10 @@ pub fn run_scenario(sc: &Scenario, use_baton: bool) -> ScenarioResult {
     // thread (state leakage); distinct jobs only
     if violation.is_none() {
         let shared = &shared;
-        let mut seen: std::collections::HashSet<(Target, &Query)> = std::collections::HashSet::new();
+        let mut seen: std::collections::HashSet<(usize, Target, &Query)> = std::collections::HashSet::new();
         let todo: Vec<(usize, usize)> = (0..n)
             .flat_map(|t| (0..sc.batches[t].len()).map(move |i| (t, i)))
-            .filter(|(t, i)| seen.insert((sc.batches[*t][*i].target, &sc.batches[*t][*i].q)))
+            .filter(|(t, i)| seen.insert((sc.batches[*t][*i].set, sc.batches[*t][*i].target, &sc.batches[*t][*i].q)))
             .collect();
         let batches = &sc.batches;
         let expected = &expected;
@@ -391,10 +470,79 @@ pub fn run_scenario(sc: &Scenario, use_baton: bool) -> ScenarioResult {
             .unwrap_or(None)
         });
     }
+    if violation.is_none() {
+        violation = std::thread::scope(|s| s.spawn(|| churn_phase(inputs)).join().unwrap_or(None));
+    }
     ScenarioResult { violation, steps, switches, schedule_digest, log: log.finish(), jobs: total_jobs }
 }
 
 // ---------------------------------------------------------------------------------------------
+
+/// Handle churn over a reused buffer: the mappings of the scenario are copied, one after the other,
+/// into ONE buffer (and their caches into one aligned buffer); fresh handles are built over it each
+/// time and questioned. Every answer must equal the alone reference for that content — whatever
+/// the buffer held before.
+fn churn_phase(inputs: &Inputs) -> Option<(String, String)> {
+    if inputs.mappings.len() < 2 {
+        return None;
+    }
+    // reference: fresh handles over the original, separately allocated bytes
+    let probes = |sh: &HandleSet<'_>, class: &str| -> Vec<String> {
+        let mut v: Vec<String> = [Query::MapHasLineInfo, Query::MapIsValid, Query::MapSummary, Query::MapUuid].iter().map(|q| api::answer_mapping(&sh.mapping, q)).collect();
+        let q = Query::Class(class.to_string());
+        v.push(cur::answer_cache(&sh.cache, &q));
+        v.push(cur::answer_mapper(&sh.mapper_p, &q));
+        let f = Query::FrameLine { class: class.to_string(), method: "a".into(), line: 1, file: None };
+        v.push(cur::answer_cache(&sh.cache, &f));
+        v.push(cur::answer_mapper(&sh.mapper, &f));
+        v
+    };
+    let names = ["has_line_info", "is_valid", "summary", "uuid", "cache.remap_class", "mapper.remap_class", "cache.remap_frame", "mapper.remap_frame"];
+    let class0: Vec<String> = inputs.mappings.iter().map(|m| crate::universe::scan(m).first().map(|c| c.obf.clone()).unwrap_or_else(|| "a".into())).collect();
+    let reference: Vec<Vec<String>> = {
+        let sh = Shared::build(inputs)?;
+        (0..inputs.mappings.len()).map(|k| probes(&sh.sets[k], &class0[k])).collect()
+    };
+    let max_m = inputs.mappings.iter().map(|m| m.len()).max().unwrap_or(0);
+    let max_c = inputs.caches.iter().map(|c| c.len()).max().unwrap_or(0);
+    let mut mbuf: Vec<u8> = Vec::with_capacity(max_m + 1);
+    let mut cbuf = AlignedBuf::new(&vec![0u8; max_c]);
+    for k in [0usize, 1, 0, 1] {
+        mbuf.clear();
+        mbuf.extend_from_slice(&inputs.mappings[k]);
+        let cbytes = inputs.caches[k].as_slice();
+        cbuf.as_mut_slice()[..cbytes.len()].copy_from_slice(cbytes);
+        let cview = &cbuf.as_slice()[..cbytes.len()];
+        let got = guarded(|| {
+            let m = cur::ProguardMapping::new(&mbuf);
+            let set = HandleSet {
+                cache: cur::ProguardCache::parse(cview).ok()?,
+                mapper: cur::ProguardMapper::new(m.clone()),
+                mapper_p: cur::ProguardMapper::new_with_param_mapping(m.clone(), true),
+                mapping: m,
+            };
+            Some(probes(&set, &class0[k]))
+        });
+        match got {
+            Ok(Some(g)) => {
+                for (i, (a, b)) in g.iter().zip(reference[k].iter()).enumerate() {
+                    if a != b {
+                        return Some((
+                            format!("answer-depends-on-buffer-history probe={}", names[i]),
+                            format!(
+                                "handles re-created over a reused buffer (now holding mapping #{} of the scenario): {} -> {:?}, on separately allocated bytes -> {:?}",
+                                k, names[i], a, b
+                            ),
+                        ));
+                    }
+                }
+            }
+            Ok(None) => {}
+            Err(p) => return Some((format!("panic-in-churn-phase {}", panic_class(&p)), format!("panic while re-creating handles over a reused buffer: {}", p))),
+        }
+    }
+    None
+}
 
 fn violates(sc: &Scenario, class: &str) -> bool {
     matches!(run_scenario(sc, true).violation, Some((c, _)) if c == class)
@@ -407,6 +555,18 @@ pub fn minimise(v: &Violation) -> Violation {
         return v.clone();
     }
     let mut budget = 150usize;
+    // 0. drop the second handle set
+    if sc.mapping2.is_some() {
+        let mut cand = sc.clone();
+        cand.mapping2 = None;
+        for b in cand.batches.iter_mut() {
+            b.retain(|j| j.set == 0);
+        }
+        cand.batches.retain(|b| !b.is_empty());
+        if !cand.batches.is_empty() && violates(&cand, &class) {
+            sc = cand;
+        }
+    }
     // 1. drop whole threads
     let mut t = 0;
     while sc.batches.len() > 1 && t < sc.batches.len() && budget > 0 {
@@ -589,7 +749,14 @@ pub fn miri_main(args: &[String]) -> i32 {
         v.sort_by_key(|c| c.methods.is_empty());
         v
     };
-    let cache_bytes = cur::write_cache(&mapping);
+    // second, independent handle set: a same-length variant of the first mapping
+    let mapping2: Vec<u8> = {
+        let t = String::from_utf8_lossy(&mapping).to_string();
+        let v = t.replace("com.example", "org.exampel").replace("x.", "y.");
+        if v != t { v.into_bytes() } else { b"q.Q -> a.a:\n    1:1:void other():9:9 -> a\n".to_vec() }
+    };
+    let inputs = Inputs::new(&[mapping.clone(), mapping2.clone()]).expect("inputs");
+    let inputs = &inputs;
 
     // ---- phase B material: cheap direct calls on a per-thread class, expected values from fresh handles
     struct Probe {
@@ -602,8 +769,8 @@ pub fn miri_main(args: &[String]) -> i32 {
         exp_frames_cache: Vec<(String, String, usize)>,
     }
     let probes: Vec<Probe> = {
-        let b = AlignedBuf::new(&cache_bytes);
-        let fresh = Shared::build(&mapping, b.as_slice()).expect("fresh handles");
+        let fresh_all = Shared::build(inputs).expect("fresh handles");
+        let fresh = &fresh_all.sets[0];
         classes
             .iter()
             .take(3)
@@ -631,21 +798,30 @@ pub fn miri_main(args: &[String]) -> i32 {
             let m = c.methods.keys().next().cloned().unwrap_or_else(|| "a".into());
             let line = c.methods.values().next().and_then(|mi| mi.ranges.first()).map(|r| r.0).unwrap_or(1);
             let params = c.methods.values().next().and_then(|mi| mi.args.first()).cloned().unwrap_or_default();
-            list.push(Job { target: t, q: Query::Method(c.obf.clone(), m.clone()) });
-            list.push(Job { target: t, q: Query::FrameLine { class: c.obf.clone(), method: m.clone(), line, file: Some("SourceFile".into()) } });
-            list.push(Job { target: t, q: Query::FrameLine { class: c.obf.clone(), method: "nope".into(), line: 1, file: None } });
-            list.push(Job { target: t, q: Query::FrameParams { class: c.obf.clone(), method: m, params } });
+            list.push(Job { set: 0, target: t, q: Query::Method(c.obf.clone(), m.clone()) });
+            list.push(Job { set: 0, target: t, q: Query::FrameLine { class: c.obf.clone(), method: m.clone(), line, file: Some("SourceFile".into()) } });
+            list.push(Job { set: 0, target: t, q: Query::FrameLine { class: c.obf.clone(), method: "nope".into(), line: 1, file: None } });
+            list.push(Job { set: 0, target: t, q: Query::FrameParams { class: c.obf.clone(), method: m, params } });
         }
         let c0 = classes.first().map(|c| c.obf.clone()).unwrap_or_else(|| "a".into());
-        list.push(Job { target: t, q: Query::Throwable { class: c0.clone(), msg: Some("boom".into()) } });
-        list.push(Job { target: t, q: Query::Signature(format!("(L{};I)L{};", c0.replace('.', "/"), c0.replace('.', "/"))) });
-        list.push(Job { target: t, q: Query::TraceText(format!("{}: Crash\n    at {}.a(SourceFile:4)\nCaused by: {}: inner\n", c0, c0, c0)) });
-        list.push(Job { target: t, q: Query::Class("zzz.unknown".into()) });
+        list.push(Job { set: 0, target: t, q: Query::Throwable { class: c0.clone(), msg: Some("boom".into()) } });
+        list.push(Job { set: 0, target: t, q: Query::Signature(format!("(L{};I)L{};", c0.replace('.', "/"), c0.replace('.', "/"))) });
+        list.push(Job { set: 0, target: t, q: Query::TraceText(format!("{}: Crash\n    at {}.a(SourceFile:4)\nCaused by: {}: inner\n", c0, c0, c0)) });
+        list.push(Job { set: 0, target: t, q: Query::Class("zzz.unknown".into()) });
     }
-    list.push(Job { target: Target::Mapper, q: Query::Class(classes.first().map(|c| c.obf.clone()).unwrap_or_default()) });
-    list.push(Job { target: Target::Cache, q: Query::TraceTyped(format!("    at {}.a(SourceFile:1)", classes.first().map(|c| c.obf.clone()).unwrap_or_default())) });
-    list.push(Job { target: Target::Mapping, q: Query::MapSummary });
-    list.push(Job { target: Target::Mapping, q: Query::MapHasLineInfo });
+    list.push(Job { set: 0, target: Target::Mapper, q: Query::Class(classes.first().map(|c| c.obf.clone()).unwrap_or_default()) });
+    list.push(Job { set: 0, target: Target::Cache, q: Query::TraceTyped(format!("    at {}.a(SourceFile:1)", classes.first().map(|c| c.obf.clone()).unwrap_or_default())) });
+    list.push(Job { set: 0, target: Target::Mapping, q: Query::MapSummary });
+    list.push(Job { set: 0, target: Target::Mapping, q: Query::MapHasLineInfo });
+    // the same questions to the second handle set (global state keyed too coarsely would mix them up)
+    let c0 = classes.first().map(|c| c.obf.clone()).unwrap_or_default();
+    for q in [Query::MapUuid, Query::MapSummary, Query::MapHasLineInfo, Query::MapIsValid] {
+        list.push(Job { set: 1, target: Target::Mapping, q });
+    }
+    list.push(Job { set: 1, target: Target::Cache, q: Query::Class(c0.clone()) });
+    list.push(Job { set: 1, target: Target::MapperParams, q: Query::Class(c0.clone()) });
+    list.push(Job { set: 1, target: Target::Cache, q: Query::Signature(format!("(L{};)V", c0.replace('.', "/"))) });
+    list.push(Job { set: 1, target: Target::MapperParams, q: Query::Signature(format!("(L{};)V", c0.replace('.', "/"))) });
     let batches: Vec<Vec<Job>> = (0..n_threads)
         .map(|t| {
             let rot = (t * 5 + rng.usize_below(list.len())) % list.len();
@@ -655,8 +831,7 @@ pub fn miri_main(args: &[String]) -> i32 {
         })
         .collect();
 
-    let buf = AlignedBuf::new(&cache_bytes);
-    let Some(shared) = Shared::build(&mapping, buf.as_slice()) else {
+    let Some(shared) = Shared::build(inputs) else {
         println!("MIRI-C20 harness: cannot build handles");
         return 2;
     };
@@ -669,7 +844,8 @@ pub fn miri_main(args: &[String]) -> i32 {
             .map(|me| {
                 let shared = &shared;
                 s.spawn(move || -> Out {
-                    let sh = shared.get();
+                    let sh_all = shared.get();
+                    let sh = &sh_all.sets[0];
                     // 1. first use of the lazily initialised UUID namespace, concurrently
                     let uuid = api::answer_mapping(&sh.mapping, &Query::MapUuid);
                     // 2. hammer: cheap calls on "my" class while the other threads hammer theirs
@@ -705,7 +881,7 @@ pub fn miri_main(args: &[String]) -> i32 {
                         }
                     }
                     // 3. one systematic pass over every API kind
-                    let answers = batches[me].iter().map(|j| answer_job(sh, j, &mut || {})).collect::<Vec<String>>();
+                    let answers = batches[me].iter().map(|j| answer_job(sh_all, j, &mut || {})).collect::<Vec<String>>();
                     (uuid, bad, answers)
                 })
             })
@@ -714,10 +890,9 @@ pub fn miri_main(args: &[String]) -> i32 {
     });
     // reference afterwards: each distinct job alone on fresh handles
     let mut d = Digest::default();
-    let buf2 = AlignedBuf::new(&cache_bytes);
-    let fresh = Shared::build(&mapping, buf2.as_slice()).expect("fresh handles");
-    let exp_uuid = api::answer_mapping(&fresh.mapping, &Query::MapUuid);
-    let mut memo: std::collections::HashMap<(Target, &Query), String> = std::collections::HashMap::new();
+    let fresh = Shared::build(inputs).expect("fresh handles");
+    let exp_uuid = api::answer_mapping(&fresh.sets[0].mapping, &Query::MapUuid);
+    let mut memo: std::collections::HashMap<(usize, Target, &Query), String> = std::collections::HashMap::new();
     for (t, (uuid, bad, answers)) in results.iter().enumerate() {
         if *uuid != exp_uuid {
             println!("MIRI-C20 VIOLATION thread={} mapping.uuid() concurrent first use -> {} alone -> {}", t, uuid, exp_uuid);
@@ -728,7 +903,14 @@ pub fn miri_main(args: &[String]) -> i32 {
             return 1;
         }
         for (i, j) in batches[t].iter().enumerate() {
-            let e = memo.entry((j.target, &j.q)).or_insert_with(|| answer_job(&fresh, j, &mut || {})).clone();
+            // each distinct job alone, on handles of its own
+            let e = memo
+                .entry((j.set, j.target, &j.q))
+                .or_insert_with(|| {
+                    let own = Shared::build(inputs).expect("fresh handles");
+                    answer_job(&own, j, &mut || {})
+                })
+                .clone();
             d.str(&e);
             if e != answers[i] {
                 println!("MIRI-C20 VIOLATION thread={} job={} {} alone={:?} concurrent={:?}", t, i, j.describe(), e, answers[i]);
